@@ -127,7 +127,13 @@ def run(ctx: C.Ctx):
                  'is repeated; dump=False / skip_if_field / Annotated SkipIf (also as a string) on the fields around the forward reference. '
                  'Defaults on the identity / equality boundary: NaN float / Decimal NaN / an object that equals nothing / tuples holding '
                  'them, with the instance keeping the default object, a fresh object from the same expression or another value, '
-                 'under skip_defaults from Meta and argument; reference = operator == against the default object of the class.')
+                 'under skip_defaults from Meta and argument; reference = operator == against the default object of the class. '
+                 'GENERATED CODE (harness/props/c11_gencode.py): seeded classes over everything the dump generator reads (field order, defaults, '
+                 'all=True aliases, dump=False, paths, CatchAll with / without default, per-field and Meta conditions over every operator, tag, '
+                 'key transforms, load before dump) x instances with None / bool / int / str values x {no arguments, exclude lists, '
+                 'skip_defaults True / False}: generated text == the generator model byte for byte, then the dict the real function returns '
+                 '== the dict rebuilt from the emissions of the Lean interpreter of that text (comparison TypeError == raised; stuck never); '
+                 'tag entry and catch-all write-back also stated directly on the result.')
     ncls = ctx.quick(160, 2500)
     reqs, pend = [], []
     idx = 0
@@ -253,6 +259,10 @@ def run(ctx: C.Ctx):
             else:
                 m = {'err': 'TypeError' if r['err'] == ['raw', 'TypeError'] else r['err']}
             ctx.agree('skip:model', case, impl, m)
+    # ---- the generated code itself: the generator model's text == the generated source, and the Lean interpreter of that text
+    #      (theorem C11_generated_code_selects) == what the real function returns
+    from . import c11_gencode
+    c11_gencode.run(ctx)
 
 
 def pick_cond(rng):
